@@ -155,6 +155,9 @@ class RandomStub:
     def seed(self, s=None):
         return self._rec("seed", seed=s)
 
+    def multinomial(self, n, pvals, size=None):
+        return self._rec("multinomial", n=n, pvals=pvals, size=size)
+
 
 # --------------------------------------------------------------------------- np proxy
 
